@@ -28,8 +28,8 @@ type Outcome struct {
 	Stack    string   `json:"stack,omitempty"`
 	URLs     []string `json:"urls,omitempty"`
 	// typed network errors found with errors.As in the returned error
-	AsCRLUnavailable bool `json:"as_crl_unavailable,omitempty"`
-	AsRecreation     bool `json:"as_recreation,omitempty"`
+	AsCRLUnavailable bool  `json:"as_crl_unavailable,omitempty"`
+	AsRecreation     bool  `json:"as_recreation,omitempty"`
 	ErrVal           error `json:"-"`
 }
 
